@@ -19,6 +19,7 @@ Inductive lop :=
 | LRoute (director : nat) (probe : bool) (rnd : nat)   (* probe: the clock is past lastTime + Tick *)
 | LWaitReg
 | LRescheduled (rnd : nat)
+| LRescheduledProbe (rnd : nat)   (* a woken waiter reschedules with the clock past lastTime + Tick *)
 | LTimeout
 | LDetect
 | LClose
@@ -49,6 +50,7 @@ Definition apply (op : lop) (l : lb) : lb :=
   | LRoute d probe rnd => step l (Route d (if probe then 0 else l_probe l) rnd)
   | LWaitReg => step l WaitReg
   | LRescheduled rnd => step l (Rescheduled 0%nat (l_probe l) rnd)
+  | LRescheduledProbe rnd => step l (Rescheduled 0%nat 0 rnd)
   | LTimeout => step l (Timeout (first_waiter l))
   | LDetect => step l Detect
   | LClose => step l Close
